@@ -14,6 +14,7 @@ namespace {
 struct Case {
     std::vector<uint8_t> bytes;
     int                  width{1};
+    int                  alias{0}; // 1: strings also hold look-alike code points (jm::look_alike_cps); absent in older replay files
 };
 
 struct Flags {
@@ -317,6 +318,7 @@ jm::Node cps_to_units(const jm::Node &n, int width) {
 
 template <typename Char_T>
 void run_width(const Case &c, pbt::Ctx &ctx) {
+    jm::look_alike_cps() = (c.alias != 0);
     jm::Entropy      e(c.bytes);
     Flags            fl;
     Builder<Char_T>  b(e, fl);
@@ -402,11 +404,12 @@ struct H {
     static const char *name() { return "C08 stringify/parse round trip and validity"; }
     static rc::Gen<Case> gen() {
         using namespace rc;
-        return gen::map(gen::tuple(gen::resize(300, gen::container<std::vector<uint8_t>>(gen::arbitrary<uint8_t>())), pbt::pick<int>({1, 1, 2, 4})),
-                        [](std::tuple<std::vector<uint8_t>, int> t) {
+        return gen::map(gen::tuple(gen::resize(300, gen::container<std::vector<uint8_t>>(gen::arbitrary<uint8_t>())), pbt::pick<int>({1, 1, 2, 4}), pbt::pick<int>({0, 0, 1})),
+                        [](std::tuple<std::vector<uint8_t>, int, int> t) {
                             Case c;
                             c.bytes = std::get<0>(t);
                             c.width = std::get<1>(t);
+                            c.alias = std::get<2>(t);
                             return c;
                         });
     }
@@ -414,7 +417,9 @@ struct H {
     static bool from_fuzz(const uint8_t *d, size_t n, Case &c) {
         pbt::FuzzBytes f(d, n);
         static const int w[] = {1, 2, 4, 1};
-        c.width = w[f.sel() & 3];
+        const uint8_t sel = f.sel();
+        c.width = w[sel & 3];
+        c.alias = (sel >> 2) & 1;
         c.bytes = f.rest();
         return true;
     }
@@ -428,6 +433,7 @@ struct H {
         }
         kv.put("bytes", hex);
         kv.put("width", c.width);
+        kv.put("alias", c.alias);
         return kv.text();
     }
     static Case from_text(const std::string &t) {
@@ -438,6 +444,7 @@ struct H {
             c.bytes.push_back(uint8_t(strtoul(hex.substr(i, 2).c_str(), nullptr, 16)));
         }
         c.width = int(kv.geti("width", 1));
+        c.alias = int(kv.geti("alias", 0));
         return c;
     }
     static void run(const Case &c, pbt::Ctx &ctx) {
